@@ -36,13 +36,13 @@ git -C /repo worktree remove --force $wt
 git -C /repo apply $src/patch.diff || exit 3
 results=""
 for p in $props; do
-  out=$(cd /verif && VERIF_EVIDENCE_DIR=/tmp/mutant_evidence ./check $p quick 2>&1); rc=$?
+  out=$(cd ${VERIF_DIR:-/verif} && VERIF_EVIDENCE_DIR=/tmp/mutant_evidence ./check $p quick 2>&1); rc=$?
   echo "---- $p quick rc=$rc"; echo "$out" | grep -E 'VIOLATION|INCONCLUSIVE|held' | cut -c1-400 | head -8
   first=$(echo "$out" | grep -m1 'VIOLATION-CANDIDATE' | cut -c1-300 | sed 's/"/\\"/g')
   results="$results{\"check\":\"$p quick\",\"exit\":$rc,\"first_report\":\"$first\"},"
 done
 git -C /repo checkout -- . ; git -C /repo clean -fdq
-dst=/verif/seeded/$sid; mkdir -p $dst
+dst=${SEED_DST:-/verif/seeded}/$sid; mkdir -p $dst
 cp $src/patch.diff $dst/patch.diff; cp $src/demo_test.go $dst/demo_test.go; cp $src/NOTES.md $dst/NOTES.md 2>/dev/null
 cat > $dst/meta.json <<META
 {
